@@ -63,6 +63,11 @@ class AvroWriter(AbstractWriter):
 
     def write(self, r: record.Record) -> None:
         if not self.desc:
+            if self.writer:
+                # flush() on a writer without records has already emitted an empty container: start the file over,
+                # a second container header behind it would make every record read back as an empty one
+                self.fp.seek(0)
+                self.fp.truncate()
             self.desc = r._desc
             self.schema = descriptor_to_schema(self.desc)
             self.parsed_schema = fastavro.parse_schema(self.schema)
